@@ -23,11 +23,14 @@ UNARY = {2: ["x", "y", "rho", "rho2", "phi"],
          3: ["x", "y", "rho", "phi", "z", "theta", "eta", "costheta", "cottheta", "mag", "mag2"],
          4: ["x", "y", "rho", "phi", "z", "theta", "eta", "mag", "t", "t2", "tau", "tau2", "beta", "gamma", "rapidity"]}
 MOM4 = ["Et", "Et2", "Mt", "Mt2", "pt", "mass", "energy"]
-UNARY_VEC = {2: [("rotateZ", ["0.7"]), ("scale", ["2.5"]), ("unit", [])],
+UNARY_VEC = {2: [("rotateZ", ["0.7"]), ("scale", ["2.5"]), ("unit", []), ("to_Vector3D", []), ("to_Vector4D", []), ("to_Vector2D", []), ("to_xyz", []),
+                 ("to_rhophietatau", [])],
              3: [("rotateZ", ["0.7"]), ("rotateX", ["-1.1"]), ("rotateY", ["2.9"]), ("scale", ["0.4"]), ("unit", []),
-                 ("rotate_quaternion", ["0.5", "0.1", "-0.7", "0.5"]), ("to_xyz", []), ("to_rhophieta", []), ("to_rhophitheta", [])],
+                 ("rotate_quaternion", ["0.5", "0.1", "-0.7", "0.5"]), ("to_xyz", []), ("to_rhophieta", []), ("to_rhophitheta", []),
+                 ("to_Vector2D", []), ("to_Vector3D", []), ("to_Vector4D", []), ("to_xythetat", []), ("neg2D", [])],
              4: [("rotateZ", ["0.7"]), ("rotateX", ["-1.1"]), ("scale", ["1.7"]), ("unit", []), ("to_beta3", []), ("to_xyzt", []),
-                 ("to_rhophietatau", []), ("to_xythetat", []), ("to_Vector3D", []), ("neg3D", [])]}
+                 ("to_rhophietatau", []), ("to_xythetat", []), ("to_Vector3D", []), ("neg3D", []), ("to_Vector2D", []), ("to_Vector4D", []),
+                 ("to_rhophi", []), ("neg2D", [])]}
 BOOSTS = [("boostX", {"beta": "0.6"}), ("boostZ", {"beta": "-0.35"}), ("boostY", {"gamma": "1.8"})]
 BINARY = {2: ["add", "subtract", "dot", "deltaphi"], 3: ["add", "subtract", "dot", "cross", "deltaangle", "deltaeta", "deltaR", "deltaR2"],
           4: ["add", "dot", "deltaR", "boost_p4", "deltaRapidityPhi"]}
@@ -132,7 +135,11 @@ def run(ctx):
         for sig in sigs:
             fl = r.choice("gm")
             p = r.choice(pts)
-            sv, syms = sympy_vec(fl, sig, 1, keywords=True)
+            try:
+                sv, syms = sympy_vec(fl, sig, 1, keywords=True)
+            except Exception as e:  # noqa: BLE001
+                problems.append(("sympy-constructor-raises", f"{fl}:{sig}: {type(e).__name__}: {str(e)[:80]}"))
+                sv, syms = sympy_vec(fl, sig, 1)
             n += 1
             if sym_sig(sv) != tuple(sig) or isinstance(sv, __import__("vector").Momentum) != (fl == "m"):
                 problems.append(("sympy-constructor", f"keyword construction of a {fl}:{sig} SymPy vector gives {type(sv).__name__} stored as {sym_sig(sv)}"))
